@@ -17,8 +17,8 @@ OWN = {
     "own-hybrid-class": ("TorrentFileHybrid", {}),
 }
 REF = ["ref-V1", "ref-V1-perm", "ref-V1-bep47", "ref-V2", "ref-HY-notrail",
-       "ref-HY-trail", "ref-V1-extra", "ref-V2-extra"]
-PADDED_V1 = {"own-v1-aligned", "ref-V1-bep47"}
+       "ref-HY-trail", "ref-V1-extra", "ref-V2-extra", "ref-V1-bep47x2"]
+PADDED_V1 = {"own-v1-aligned", "ref-V1-bep47", "ref-V1-bep47x2"}
 
 
 def ref_meta(family, tree, P, B):
@@ -29,6 +29,8 @@ def ref_meta(family, tree, P, B):
         return model.ref_v1(name, tree, P, "perm")
     if family == "ref-V1-bep47":
         return model.ref_v1(name, tree, P, "bep47")
+    if family == "ref-V1-bep47x2":
+        return model.ref_v1(name, tree, P, "bep47x2")
     if family == "ref-V2":
         return model.ref_v2(name, tree, P, B)
     if family == "ref-HY-notrail":
